@@ -140,7 +140,18 @@ class Gen:
         if k == 3:
             self.note("E.str")
             n = r.below(5)
-            return ["str", hexs(r.pick([97, 98, 32, 10, 9, 34, 39, 92, 0, 200, 0x7f, 0xe2]) for _ in range(n))]
+            data = []
+            for _ in range(n):
+                k2 = r.below(4)
+                if k2 == 0:
+                    data.append(r.pick([97, 98, 32, 10, 9, 34, 39, 92, 0, 200, 0x7f, 0xe2]))
+                elif k2 == 1:
+                    data.append(r.below(256))       # every byte value, incl. control bytes and lone continuation bytes
+                elif k2 == 2:
+                    data.append(r.pick([0x1b, 0x0b, 0x0c, 0x0e, 0x1f, 0x8a, 0x9f, 0xca, 0xdf, 0x4a, 0x5f, 0xaf, 0xfa]))
+                else:
+                    data.extend(chr(r.pick([0xdc, 0xfc, 0xe9, 0x3a9, 0x20ac, 0x4e2d, 0x1f600, 0x10ffff, 0x80, 0x7ff, 0x800])).encode("utf-8"))
+            return ["str", hexs(data)]
         if k in (4, 5):
             self.note("E.deref")
             return ["deref", 0, self.name("v"), ["steps"] if deep else self.steps(d, no_struct)]
@@ -424,7 +435,22 @@ class Render:
         out = []
         for p in parts:
             s = '"'
-            for b in p:
+            skip = 0
+            for idx, b in enumerate(p):
+                if skip:
+                    skip -= 1
+                    continue
+                if b >= 0xc2 and not self.plain and r.chance(1, 2):
+                    # a complete UTF-8 sequence may stand in the source as the character itself
+                    ln = 2 if b < 0xe0 else 3 if b < 0xf0 else 4
+                    try:
+                        ch = bytes(p[idx:idx + ln]).decode("utf-8")
+                        if len(ch) == 1 and len(p[idx:idx + ln]) == ln:
+                            s += ch
+                            skip = ln - 1
+                            continue
+                    except UnicodeDecodeError:
+                        pass
                 if b == 10:
                     s += "\\n"
                 elif b == 9:
@@ -440,7 +466,7 @@ class Render:
                 elif 32 <= b < 127:
                     s += chr(b)
                 else:
-                    s += "\\x%02x" % b
+                    s += ("\\x%02x" if (self.plain or r.chance(1, 2)) else "\\x%02X") % b
             out.append(s + '"')
         return out
 
